@@ -187,7 +187,7 @@ def rod(ctx, B, C, tiny):
         B.prove_bool("Rod: (4c) r >= 0, r^2 == E, r - length == 0  ==>  E == length^2   (E opaque: holds for the radicand of (4a))", gE == gd * gd, sq + [gr - gd == 0], U, fn + "::calcPositionErrorsVirtual", minimal=True)
         B.prove_bool("Rod: (4c) r >= 0, r^2 == E, E == length^2, length >= 0  ==>  r - length == 0   (perr vanishes exactly when the separation equals the rod length)", gr - gd == 0,
                      sq + [gE == gd * gd, gd >= 0], U, fn + "::calcPositionErrorsVirtual", minimal=True)
-    s_ = z3.Solver(); s_.set("timeout", 20000); s_.add(*side)
+    s_ = z3.Solver(); s_.set("timeout", int(20000 * S.timeout_scale())); s_.add(*side)
     ctx.add(Obligation("guard:Rod non-singular path conditions satisfiable", "guards", "z3", "discharged" if s_.check() == z3.sat else "undecided", 0, "reachability guard"))
     S.reset_env()
 
